@@ -10,6 +10,7 @@ mod c12;
 mod c13;
 mod c14;
 mod c15;
+mod c16;
 mod c17;
 mod c19;
 mod c20;
@@ -52,6 +53,7 @@ fn main() {
             "C10" => c10::replay(&mut rep, &v),
             "C14" => c14::replay(&mut rep, &v),
             "C15" => c15::replay(&mut rep, &v),
+            "C16" => c16::replay(&mut rep, &v),
             _ => rep.notes.push(format!("HARNESS-ERROR: no replay handler for {prop}")),
         }
         let text = serde_json::to_string_pretty(&rep.to_json()).unwrap();
@@ -70,6 +72,7 @@ fn main() {
         "C13" => c13::run(&mut rep, &tier, seed),
         "C14" => c14::run(&mut rep, &tier, seed),
         "C15" => c15::run(&mut rep, &tier, seed),
+        "C16" => c16::run(&mut rep, &tier, seed),
         "C17" => c17::run(&mut rep, &tier, seed),
         "C19" => c19::run(&mut rep, &tier, seed),
         "C20" => c20::run(&mut rep, &tier, seed),
